@@ -592,10 +592,11 @@ def newtontrustregion(f, x0, jac=None, tol=None, verbose=False, maxiter=200, jac
                 print(f"[ntr-finished]: x = {D.ar_numpy.to_numpy(x)}, ||dx|| = {D.ar_numpy.to_numpy(dxn)}, ||F|| = {D.ar_numpy.to_numpy(Fn1)}, ||dF|| = {D.ar_numpy.to_numpy(df)}")
             break
     # a converged step is not a solution by itself: success also needs a residual at the level of the tolerance
-    success = success and bool(Fn1 <= 10 * tol * (xdim + D.ar_numpy.linalg.norm(x)))
+    # (with var_bounds the iteration runs on an unbounded angle: the size of the solution is that of the point handed back)
     x = D.ar_numpy.reshape(x, xshape)
     if var_bounds is not None:
         x = transform_to_unbounded_x(x, *var_bounds)
+    success = success and bool(Fn1 <= 10 * tol * (xdim + D.ar_numpy.linalg.norm(x)))
     return x, (success and not convergence_failure, iteration, nfev, njev, Fn1)
 
 
@@ -722,10 +723,11 @@ def hybrj(f, x0, jac, tol=None, verbose=False, maxiter=200, var_bounds=None):
                 print(f"[hybrj-finished]: ||F|| = {D.ar_numpy.to_numpy(Fn0)}, ||dx|| = {D.ar_numpy.to_numpy(dxn)}, x = {D.ar_numpy.to_numpy(x)}, F = {D.ar_numpy.to_numpy(F0)}")
             break
     # a converged step or a collapsed trust region is not a solution by itself: success also needs a residual at the level of the tolerance
-    success = bool(success) and bool(D.ar_numpy.linalg.norm(F0) <= 10 * tol * (xdim + D.ar_numpy.linalg.norm(x)))
+    # (with var_bounds the iteration runs on an unbounded angle: the size of the solution is that of the point handed back)
     x = D.ar_numpy.reshape(x, xshape)
     if var_bounds is not None:
         x = transform_to_unbounded_x(x, *var_bounds)
+    success = bool(success) and bool(D.ar_numpy.linalg.norm(F0) <= 10 * tol * (xdim + D.ar_numpy.linalg.norm(x)))
     return x, (success, dxn, iteration, D.ar_numpy.reshape(F0, fshape))
 
 
